@@ -114,6 +114,61 @@ for o in (o4, o6):
     for c in o.conns:
         if b'-%d' % DENYPORT in c['rx']:
             chk.violation('routing.real', 'denied-payload-forwarded', f'origin received {c["rx"][:60]!r}', {})
+# ---- an upstream that cannot carry the requested feature: UDP requests routed to a SOCKS4 upstream (SOCKS4 has no UDP
+#      ASSOCIATE) or to a load balancer (TCP only) are refused, and no connection to the upstream is opened
+def no_udp_case(kind):
+    uo = UdpOrigin()
+    up = Origin(fake_socks_proxy)
+    q = {k: free_port() for k in ('ru', 's', 'h', 'api')}
+    conn = {'s4': {'name': 'x', 'type': 'socks', 'server': '127.0.0.1', 'port': up.port, 'version': 4},
+            'lb': {'name': 'x', 'type': 'loadbalance', 'connectors': ['direct']}}[kind]
+    c2 = {'listeners': [{'name': 'ru', 'type': 'reverse', 'bind': f"127.0.0.1:{q['ru']}", 'target': f'127.0.0.1:{uo.port}', 'protocol': 'udp'},
+                        {'name': 's', 'type': 'socks', 'bind': f"127.0.0.1:{q['s']}"}, {'name': 'h', 'type': 'http', 'bind': f"127.0.0.1:{q['h']}"}],
+          'connectors': [{'name': 'direct'}, conn], 'rules': [{'target': 'x'}], 'metrics': {'bind': f"127.0.0.1:{q['api']}", 'ui': None}}
+    p2 = Proxy(c2, 'c02u')
+    p2.api_port = q['api']
+    if not p2.start([q['s'], q['h'], q['api']]):
+        return {'error': p2.log()[-300:]}
+    out = {}
+    try:
+        u = socket.socket(socket.AF_INET, socket.SOCK_DGRAM)
+        u.sendto(b'via-reverse', ('127.0.0.1', q['ru']))
+        sk, r = socks5_connect(q['s'], '0.0.0.0', 0, cmd=3, timeout=4)
+        out['socks5-associate'] = r['rep']
+        if r['rep'] == 0 and len(r['reply']) >= 10:
+            u.sendto(b'\0\0\0' + socks5_addr('127.0.0.1', uo.port) + b'via-socks', ('127.0.0.1', struct.unpack('>H', r['reply'][8:10])[0]))
+        hs, code, head, rest = http_connect(q['h'], f'127.0.0.1:{uo.port}', extra_headers=b'Proxy-Protocol: udp\r\n', timeout=4)
+        out['http-udp'] = code
+        if code == 200:
+            body = socks5_addr('127.0.0.1', uo.port)  # not a valid frame necessarily: any bytes must not reach the origin
+            hs.sendall(b'\x00\x10' + body + b'via-http')
+        time.sleep(0.8)
+        out['upstream_connections'] = [c['rx'][:16].hex() for c in up.conns]
+        with uo.lock:
+            out['origin_datagrams'] = [d[:16].hex() for (_, d, a) in uo.rx]
+        out['alive'] = p2.alive()
+        sk.close(); hs.close(); u.close()
+        return out
+    finally:
+        p2.stop(); up.stop()
+
+for kind in ('s4', 'lb'):
+    evals += 1
+    r = no_udp_case(kind)
+    if 'error' in r:
+        machinery(f'feature case {kind}: {r}')
+    distinct.add(('no-udp', kind, bool(r['upstream_connections']), bool(r['origin_datagrams'])))
+    rp = {'connector': kind, 'observed': r}
+    if r['upstream_connections']:
+        chk.violation('routing.feature', f'upstream-opened-for-a-feature-it-cannot-carry:{kind}', f'UDP requests routed to {kind}: the upstream was connected {len(r["upstream_connections"])} time(s), first bytes {r["upstream_connections"][0]}', rp)
+    if r['origin_datagrams']:
+        chk.violation('routing.feature', f'payload-forwarded-although-refused:{kind}', f'{r["origin_datagrams"]}', rp)
+    if r['socks5-associate'] == 0 or r['http-udp'] == 200:
+        chk.violation('routing.feature', f'client-told-established:{kind}', f'socks5 associate reply {r["socks5-associate"]}, http {r["http-udp"]}', rp)
+    if not r['alive']:
+        chk.violation('process', 'proxy-died', kind, rp)
+    samples.append(rp)
+
 if not px.alive():
     chk.violation('process', 'proxy-died', px.log()[-300:], {})
 px.stop(); o4.stop(); o6.stop()
@@ -121,5 +176,5 @@ if evals < 30 or len(distinct) < 10:
     machinery(f'vacuous: evals={evals} distinct={len(distinct)}')
 cov = {'evaluations': evals, 'distinct_nontrivial': len(distinct), 'transitions': evals, 'traces_validated_against_impl': evals,
        'rule': 'real binary with dual-stack listeners: client source {127.0.0.1, 127.0.0.2, ::1} x client protocol {http, socks5, socks4, reverse} x target {IPv4, domain, IPv6, a denied port}; 8 rules over request.source.host/type, request.listener, request.target.host/type/port; the recorded connector must equal the first-match reference evaluated on the true attributes, the recorded source must be the real client address, denied requests are refused and reach no origin',
-       'schedule_control': 'kernel', 'samples': samples}
+       'feature_cases': 'UDP requests (reverse-udp datagram, socks5 associate, http CONNECT udp) routed to a SOCKS4 upstream / a load balancer: refused, upstream never connected', 'schedule_control': 'kernel', 'samples': samples}
 sys.exit(chk.finish('model_checking', cov, ['E4 part: the attribute values filters see are observed through the routing decision and the connection record; TPROXY and QUIC listeners are not driven']))
